@@ -1,88 +1,23 @@
-"""C02 - sequential calls follow the frame-ownership model exactly.
+"""C02 - sequential calls follow the frame-ownership model exactly."""
+import json, os
+import seqprop
+from props import _seqplans
 
-Correspondence: the compiled allocator is run through bounded-exhaustive and seeded random call sequences
-(harness seqrun); every call's result and the full content of the lower allocator's buffers after it are
-compared with the extracted Coq model (CORR components result, ents, rows).
-Oracle: independent of the allocator model, the implementation's own results are checked against the
-extracted ownership specification (Spec.v): a free succeeds exactly when the block is entirely allocated
-(whole huge frames for orders >= huge order), an allocation returns an aligned, in-range, entirely free block
-(the requested one if targeted), and after every call the abstraction of the dumped buffers equals the
-ownership state, so failing calls change nothing and successful ones change exactly the block."""
-import os
-
-import seqcommon
-import vlib
-
-# filled in by the lead once Properties/C02.v exists
-THEOREMS = []
-
-CORR = ("result", "ents", "rows")
-ORACLE = ("C02",)
-GEOMETRIES = [(), ("tree_huge_1",), ("tree_huge_2",), ("tree_huge_8",), ("16K",)]
-
-
-def _suite(ctx, name, desc, oracle, corr, all_mism, **kw):
-    mism, summ, _paths = seqcommon.run_suite(ctx, **kw)
-    ctx.suites.append(seqcommon.suite_record(name, desc, summ))
-    o, c = seqcommon.select(mism, corr=CORR, oracle=ORACLE)
-    all_mism += o + c
-    return summ
+THEOREMS = json.load(open(os.path.join(os.path.dirname(__file__), "_theorems.json")))["C02"]
 
 
 def run(ctx):
-    prop = os.path.join(vlib.COQ, "Properties", "C02.v")
-    proofs_ok = vlib.coq_prove(ctx, prop, THEOREMS) if THEOREMS and os.path.exists(prop) else not THEOREMS
-    if not THEOREMS:
-        ctx.notes.append("C02: theorem list not filled in yet (correspondence and oracle only)")
-    oracle, corr, mism = [], [], []
-    if ctx.replay:
-        feats = ()
-        with open(ctx.replay) as fh:
-            for ln in fh:
-                if ln.startswith("# geometry features:"):
-                    f = ln.split(":", 1)[1].strip()
-                    feats = () if f in ("", "default") else tuple(f.split(","))
-        m, summ, _ = seqcommon.run_replay(ctx, ctx.replay, feats)
-        ctx.suites.append(seqcommon.suite_record("replay", "calls of %s re-run on the current code" % ctx.replay, summ))
-        o, c = seqcommon.select(m, corr=CORR, oracle=ORACLE)
-        oracle += [(t, ["# " + k, "# re-run: ./check C02 --replay " + ctx.replay]) for k, t, _ in o]
-        corr += [(k + " " + t, []) for k, t, _ in c]
-    else:
-        # regression inputs first: the minimal call sequences of earlier findings
-        cm, cs = seqcommon.run_corpus(ctx)
-        ctx.suites.append(seqcommon.suite_record("corpus", "replay files of corpus/seq (minimal sequences of earlier findings)", cs))
-        co, cc = seqcommon.select(cm, corr=CORR, oracle=ORACLE)
-        oracle += [(t, seqcommon.corpus_lines(p)) for _, t, p in co]
-        corr += [(k + " " + t, seqcommon.corpus_lines(p)) for k, t, p in cc]
-        if ctx.quick:
-            plan = [((), 4, 2, 160, 150)]
-        else:
-            plan = [((), 5, 2, 5000, 150)] + [(g, 4, 2, 1200, 150) for g in GEOMETRIES[1:]]
-        for feats, depth, configs, nhist, nops in plan:
-            g = vlib.feat_dir(feats)
-            _suite(ctx, "exhaustive/" + g,
-                   "all call sequences of length %d over a 14-symbol abstract alphabet (get order 0/7/huge/tree via slot 0, "
-                   "targeted get of a free / a held block, free via slot / without slot, free of a part, repeated free, drain, "
-                   "offline/online tree 0, misaligned free) on %d small configurations" % (depth, configs),
-                   oracle, corr, mism, suite="exhaustive", features=feats, extra_args=["--depth", depth, "--configs", configs])
-            _suite(ctx, "random/" + g,
-                   "%d seeded adaptive random histories x %d calls (+queries): all orders, targeted gets, frees of held / split / "
-                   "merged / never allocated blocks, drains, tree changes, invalid arguments; 1-4 trees incl. partial last trees and "
-                   "tiny ranges, free-all / alloc-all, simple/movable/zeroed/zero-slot/custom classings with 1-3 slots" % (nhist, nops),
-                   oracle, corr, mism, suite="random", features=feats, histories=nhist, ops=nops)
-        # one minimal replay per kind of mismatch
-        for kind, (text, lines) in seqcommon.shrink_groups(ctx, mism).items():
-            if kind.startswith("ORACLE"):
-                oracle.append((text, lines))
-            else:
-                corr.append((kind + " " + text, lines))
-        for kind, text, path in mism[:3]:
-            ctx.samples.append("%s %s" % (kind, text[:200]))
-    vlib.classify(ctx, proofs_ok, oracle, corr, name="seqrun")
-    return vlib.finish(
-        ctx,
-        "The compiled allocator and the extracted sequential model are run on the same call sequences and agree on every "
-        "result and on the complete content of the lower allocator's buffers after every call; independently of the model, "
-        "every result and every buffer dump of the implementation is checked against the extracted ownership specification.",
-        "histories: bounded-exhaustive over an abstract alphabet + seeded adaptive random; evaluations = calls and queries "
-        "replayed through the model; distinct = distinct buffer dumps (all three metadata buffers) reached")
+    quick, thorough = _seqplans.plans()
+    return seqprop.run(
+        ctx, THEOREMS, corr=("result", "ents", "rows"), oracle=("C02",),
+        quick_plan=quick, thorough_plan=thorough, corpus_tags=("D",),
+        text="Coq theorems (refinement to the ownership specification Spec.v: bitsets of allocated frames and whole huge frames), for "
+             "every geometry, frame count, consistent state and history: a lower free succeeds exactly when the block is entirely "
+             "allocated (whole huge frames for orders >= huge order) and then frees exactly those frames, splitting a whole huge "
+             "frame on a partial free; a lower allocation returns an aligned, in-range, entirely free block (the requested one if "
+             "targeted) which becomes allocated; failing calls leave the metadata unchanged; lifted through LLFree::get/put/drain/"
+             "change_tree (every path of get is a chain of lower attempts that stops at the first success) and over whole "
+             "histories from LLFree::new. Tied to the code by replaying bounded-exhaustive and random call sequences on the real "
+             "allocator and the extracted model (results and the lower buffers after every call) and by feeding the "
+             "implementation's own results to the extracted specification.",
+        rule=_seqplans.RULE)
